@@ -71,3 +71,13 @@ pub use saphyr_parser::ScanError;
 pub use saphyr_parser::Marker;
 // Re-export `ScalarStyle` and `Tag` which are used for representations.
 pub use saphyr_parser::{ScalarStyle, Tag};
+
+/// Verification hooks: access to private helpers for an external differential harness. Compiled
+/// only with the `verif-hooks` feature.
+#[cfg(feature = "verif-hooks")]
+#[allow(missing_docs)]
+pub mod verif {
+    pub use crate::emitter::verif_hooks::*;
+    #[cfg(feature = "encoding")]
+    pub use crate::encoding::verif_hooks::{detect_utf16_endianness, take_trace, ITERATION_LIMIT};
+}
